@@ -1,12 +1,15 @@
 (* C04 — List elements are never duplicated, lost, resurrected or reordered.
    Proved per replica for every operation: elements keep their relative order (insertion only adds,
    delete/update change in place), a deleted element is never brought back, a local insert at index
-   i is readable at index i.  Agreement of the order ACROSS replicas follows from convergence of the
-   list (C01), whose list instance is not yet proved; it is checked on every run by the model replay
-   and by the oracle that follows every element through every replica-moment. *)
+   i is readable at index i.  Across replicas (Proofs/ListConv.v): whatever two replicas have executed so far, what
+   each holds is a subsequence of one duplicate-free sequence of elements — the one both hold once they have executed
+   everything (convergence of the list, C01) — so any two elements appear in the same relative order on every replica
+   at every moment, and no element appears twice.  Checked in addition on every run by the model replay and by the
+   oracle that follows every element through every replica-moment. *)
 From Coq Require Import List NArith ZArith.
 From Orda.Model Require Import Base Time Ops List.
-From Orda.Proofs Require Import ListFacts.
+From Coq Require Import Permutation.
+From Orda.Proofs Require Import Permute ListFacts ListConv.
 
 Theorem C04_local_insert_readable_at_index : forall s pos v vs i s' o r,
   sized s -> l_validate s (LInsert pos (v :: vs)) = true ->
@@ -42,3 +45,20 @@ Theorem C04_local_ops_exact : forall s c i,
     end.
 Proof. exact list_local_refines_plain. Qed.
 Print Assumptions C04_local_ops_exact.
+
+(* across replicas, at every moment: l1, l2 = what two replicas have executed so far; e1, e2 = any executable completions
+   to the same set of operations.  [sublist a F]: a is F with some elements left out, order kept. *)
+Theorem C04_same_order_on_all_replicas : forall l1 e1 l2 e2,
+  NoDup (map loid (l1 ++ e1)) -> Permutation (l1 ++ e1) (l2 ++ e2) ->
+  exec_ok lstate op l_exec_remote l_ready l_init (l1 ++ e1) -> exec_ok lstate op l_exec_remote l_ready l_init (l2 ++ e2) ->
+  exists F, NoDup F /\
+    sublist (ids (l_nodes (fold_left l_exec_remote l1 l_init))) F /\
+    sublist (ids (l_nodes (fold_left l_exec_remote l2 l_init))) F.
+Proof. exact list_order_consistent. Qed.
+Print Assumptions C04_same_order_on_all_replicas.
+
+(* every executable history keeps identities distinct (no element twice) *)
+Theorem C04_no_duplicates : forall ops,
+  exec_ok lstate op l_exec_remote l_ready l_init ops -> NoDup (ids (l_nodes (fold_left l_exec_remote ops l_init))).
+Proof. intros ops H. destruct (exec_ok_invariants ops l_init lgood_nil eq_refl H) as [[G _] _]. exact G. Qed.
+Print Assumptions C04_no_duplicates.
